@@ -2,7 +2,7 @@
    Model: Model/Labels.v (labels_cycles) over binary64 features and thresholds. *)
 From Coq Require Import List Arith Bool ZArith Floats.PrimFloat.
 Import ListNotations.
-From ByC Require Import Base.Result Model.Runs Model.Labels Proofs.Labels.
+From ByC Require Import Base.Result Base.FloatFacts Model.Runs Model.Labels Proofs.Labels Proofs.LabelsOrder.
 
 (* a cycle is labelled exactly when it lies in a stretch of >= n consecutive qualifying
    cycles that avoids the first and the last cycle of the table *)
@@ -39,3 +39,13 @@ Theorem C06_monotone_given_order : forall t t' n n' rows lab lab',
   forall i, nth i lab' false = true -> nth i lab false = true.
 Proof. exact labels_cycles_mono_gen. Qed.
 Print Assumptions C06_monotone_given_order.
+
+(* binary64 instance: thresholds finite (they are validated to lie in [0,1]); feature values are
+   arbitrary doubles, NaN and infinities included.  Depends on the stdlib float axioms and, through
+   Flocq's use of Reals, on the classical-reals axioms (see Print Assumptions). *)
+Theorem C06_raising_thresholds_or_n_only_removes_labels : forall t t' n n' rows lab lab',
+  thr_finite t -> thr_finite t' -> thr_le t t' -> (n <= n')%Z ->
+  labels_cycles t n rows = Ok lab -> labels_cycles t' n' rows = Ok lab' ->
+  forall i, nth i lab' false = true -> nth i lab false = true.
+Proof. exact labels_cycles_mono. Qed.
+Print Assumptions C06_raising_thresholds_or_n_only_removes_labels.
